@@ -1,83 +1,603 @@
 """C15 — dependency cycles rejected; field order respects dependencies.
 
-Tie: correspondence.  Random reference graphs are realised as structures (virtual
-`let` fields, conditional physical fields, dynamically located fields, parameters),
-compiled by the real front end; the real `fields_in_dependency_order` is compared
-with the Lean model `order` (ops `ORDER`), the dependency edges being extracted from
-the IR's JSON form by an independent walker.  Independent spec oracle (Python):
-Kahn-style acyclicity, permutation, topological, identity-if-sorted.
+Tie: correspondence (the Lean theorems are about the model in lean/Emboss/Model/Deps.lean
+and Tarjan.lean; this file ties the model to the code on every run).
+
+  A. raw graphs      real `dependency_checker._find_cycles` on random dict-of-sets graphs
+                     vs model op `CYCLES` (Tarjan as written) vs closure oracle;
+                     plus the same graph with shuffled dict/set order (order independence)
+  B. real modules    random reference graphs realised as .emb (let / conditional /
+                     dynamically located or sized fields, type-parameter arguments, enum
+                     values, runtime parameters, attributes, several structs): real
+                     `_find_dependencies` vs model `DEPGRAPH` fed by an independent walker
+                     over the IR's JSON form; real `find_dependency_cycles` error groups
+                     (order, members, locations, messages compared exactly) vs model
+                     `DEPCYC`/`IMPORTS`; the full pipeline must report the same groups;
+                     closure oracle on the real graph and on the generator's intended edges
+  C. import graphs   multi-file modules (cycles, self-import, prelude self-import)
+  D. ordering        real `fields_in_dependency_order` vs model `ORDER` + ordering oracle
+  E. depth           recursion-depth probes (`strong_connect` is recursive)
 """
+import collections
 import json
+import sys
+import traceback
 
 from harness.lib import common, emb
 
+from compiler.front_end import dependency_checker
+
 PROP = "C15"
+KEYWORDS = ["$is_statically_sized", "$static_size_in_bits", "$next"]
+RECURSION_KEY = "crash:dependency_checker.py:strong_connect:RecursionError"
 
 
-# ----------------------------------------------------------------- generator
-def gen_struct(r, n_fields, n_params, cyclic_bias):
-    """Returns (text, intended deps {field name: set(names)}, names in source order)."""
-    params = ["p%d" % i for i in range(n_params)]
-    names = ["f%d" % i for i in range(n_fields)]
-    deps = {}
-    lines = []
-    phys_offset = 0
-    for i, nm in enumerate(names):
-        # candidates: anything (forward references allowed); acyclic unless biased
-        if r.random() < cyclic_bias:
-            cands = names + params
+# ------------------------------------------------------------------ oracle
+def closure_sccs(graph):
+    """Independent oracle, written from the definition: reachability by naive
+    transitive closure; components = classes of mutual reachability that contain a
+    cycle (more than one node, or a self-edge).  graph: {node: iterable of nodes}."""
+    nodes = list(graph)
+    reach = {a: set(graph[a]) for a in nodes}
+    changed = True
+    while changed:
+        changed = False
+        for a in nodes:
+            add = set()
+            for b in reach[a]:
+                add |= reach.get(b, set())
+            if not add <= reach[a]:
+                reach[a] |= add
+                changed = True
+    comps = set()
+    for a in nodes:
+        if a in reach[a]:
+            comps.add(frozenset(b for b in nodes if b == a or (b in reach[a] and a in reach.get(b, ()))))
+    return comps
+
+
+def canon(comps):
+    """What the error construction does: sorted(cycles, key=sorted), sorted(cycle)."""
+    return sorted(sorted(c) for c in comps)
+
+
+def show_groups(groups):
+    return "cycles " + ";".join(",".join(str(x) for x in g) for g in groups)
+
+
+def graph_line(op, keys, adj):
+    return op + " " + "|".join("%d:%s" % (k, ",".join(str(d) for d in adj[k])) for k in keys)
+
+
+# ------------------------------------------------------------------ A: raw graphs
+FAMILIES = ["sparse", "dense", "dag", "selfloops", "longcycle", "multi_scc", "bridged", "complete",
+            "tiny", "dangling"]
+
+
+def gen_raw(r, fam):
+    n = r.randint(0, 3) if fam == "tiny" else r.randint(1, 14)
+    nodes = list(range(n))
+    order = nodes[:]
+    r.shuffle(order)
+    g = {a: set() for a in order}
+    if fam == "sparse":
+        p = r.choice([0.03, 0.06, 0.1])
+        for a in nodes:
+            g[a] = {b for b in nodes if r.random() < p}
+    elif fam == "dense":
+        p = r.choice([0.3, 0.5, 0.8])
+        for a in nodes:
+            g[a] = {b for b in nodes if r.random() < p}
+    elif fam == "dag":
+        rank = nodes[:]
+        r.shuffle(rank)
+        p = r.choice([0.1, 0.3, 0.6])
+        for a in nodes:
+            g[a] = {b for b in nodes if rank[b] < rank[a] and r.random() < p}
+    elif fam == "selfloops":
+        rank = nodes[:]
+        r.shuffle(rank)
+        for a in nodes:
+            g[a] = {b for b in nodes if rank[b] < rank[a] and r.random() < 0.2}
+            if r.random() < 0.3:
+                g[a].add(a)
+    elif fam == "longcycle":
+        k = r.randint(1, n)
+        cyc = r.sample(nodes, k)
+        for i, a in enumerate(cyc):
+            g[a].add(cyc[(i + 1) % k])
+        for a in nodes:
+            if r.random() < 0.15 and a not in cyc:
+                g[a].add(r.choice(nodes))
+    elif fam in ("multi_scc", "bridged"):
+        pool = nodes[:]
+        r.shuffle(pool)
+        comps = []
+        while pool:
+            k = min(len(pool), r.randint(1, 5))
+            comps.append(pool[:k])
+            pool = pool[k:]
+        for c in comps:
+            if len(c) > 1 or r.random() < 0.3:
+                for i, a in enumerate(c):
+                    g[a].add(c[(i + 1) % len(c)])
+                for a in c:
+                    if r.random() < 0.3:
+                        g[a].add(r.choice(c))
+        if fam == "bridged":
+            for i in range(len(comps) - 1):
+                if r.random() < 0.7:     # forward bridges only: SCCs stay separate
+                    g[r.choice(comps[i])].add(r.choice(comps[r.randint(i + 1, len(comps) - 1)]))
+    elif fam == "complete":
+        for a in nodes:
+            g[a] = set(nodes) - ({a} if r.random() < 0.5 else set())
+    elif fam == "tiny":
+        for a in nodes:
+            g[a] = {b for b in nodes if r.random() < 0.5}
+    elif fam == "dangling":
+        for a in nodes:
+            g[a] = {b for b in nodes if r.random() < 0.2}
+        if r.random() < 0.8:
+            g[r.choice(nodes)].add(n + r.randint(0, 3))
+    return g
+
+
+def relabel(r, g):
+    """Same graph with tuple labels (what the real callers pass); rank-preserving or not."""
+    names = {}
+    for a in set(g) | {b for v in g.values() for b in v}:
+        names[a] = ("m%d.emb" % r.randint(0, 2), "T%d" % r.randint(0, 3), "f%d" % a)
+    return {names[a]: {names[b] for b in g[a]} for a in g}
+
+
+def number(labels):
+    """Rank in Python's sorted order, so that numeric < coincides with label <."""
+    return {lab: i for i, lab in enumerate(sorted(labels))}
+
+
+def real_find_cycles(g):
+    try:
+        return dependency_checker._find_cycles(g), None
+    except KeyError:
+        return None, "key-error"
+    except RecursionError:
+        return None, "recursion-error"
+
+
+def raw_case(chk, r, fam, lines, pending, stats):
+    g = gen_raw(r, fam)
+    if r.random() < 0.25:
+        g = relabel(r, g)
+    chk.count()
+    stats["family:" + fam] += 1
+    real, err = real_find_cycles(g)
+    closed = all(b in g for v in g.values() for b in v)
+    want = closure_sccs(g) if closed else None
+    rec = {"kind": "raw", "graph": [[repr_label(k), [repr_label(b) for b in g[k]]] for k in g]}
+    if (err == "key-error") != (not closed) or (closed and real != want):
+        rec.update(observed=str(err or canon(real)), expected="KeyError" if not closed else str(canon(want)))
+        chk.violation("input", rec)
+        return
+    num = number(set(g) | {b for v in g.values() for b in v})
+    keys = [num[k] for k in g]
+    adj = {num[k]: [num[b] for b in g[k]] for k in g}       # actual iteration order
+    expect = "key-error" if err else show_groups(canon([[num[x] for x in c] for c in real]))
+    lines.append(graph_line("CYCLES", keys, adj))
+    pending.append((rec, expect, "as-iterated"))
+    # the same graph, other dict/set iteration order: the answer must not change
+    keys2 = keys[:]
+    r.shuffle(keys2)
+    adj2 = {k: r.sample(v, len(v)) for k, v in adj.items()}
+    lines.append(graph_line("CYCLES", keys2, adj2))
+    pending.append((rec, expect, "shuffled"))
+    if err:
+        stats["key-errors"] += 1
+    else:
+        stats["components:%d" % len(real)] += 1
+        for c in real:
+            stats["component-size:%s" % (len(c) if len(c) < 6 else "6+")] += 1
+        if real:
+            chk.nontrivial("raw:" + expect + "/" + lines[-2])
+    if len(chk.cov["samples"]) < 2 and real:
+        chk.sample({"graph": rec["graph"], "real_components": canon(real)}, limit=2)
+
+
+def repr_label(x):
+    return x if isinstance(x, int) else list(x)
+
+
+def unrepr_label(x):
+    return x if isinstance(x, int) else tuple(x)
+
+
+def raw_graphs(chk, tier, model_ok, stats):
+    r = common.rng("C15-raw")
+    n = 12000 if tier == "quick" else 150000
+    lines, pending = [], []
+    for i in range(n):
+        raw_case(chk, r, FAMILIES[i % len(FAMILIES)], lines, pending, stats)
+    if model_ok:
+        answers = common.Model("model_c15").ask(lines)
+        for line, (rec, expect, how), ans in zip(lines, pending, answers):
+            stats["model-ops:" + how] += 1
+            if ans != expect:
+                stats["disagreements"] += 1
+                # the oracle already agreed with the real code on this graph
+                chk.violation("correspondence", dict(rec, op=line, model=ans, observed=expect, order=how,
+                              theorem_or_correspondence="model_c15 CYCLES vs _find_cycles"),
+                              found_input=False)
+        stats["traces"] += len(lines)
+
+
+# ------------------------------------------------------------------ B/C: real modules
+def gen_module(r, stats):
+    """Random module text + intended edges {name tuple: set(name tuples)} for the
+    definitions it writes.  Names: ('m.emb', type, member)."""
+    f = "m.emb"
+    shape = r.choice(["acyclic", "acyclic", "few-back", "cyclic", "dense"])
+    back = {"acyclic": 0.0, "few-back": 0.08, "cyclic": 0.3, "dense": 0.6}[shape]
+    stats["module-shape:" + shape] += 1
+    intended = {}
+    text = []
+    # --- enums
+    enums = []
+    for e in range(r.choice([0, 1, 1, 2])):
+        enums.append(("E%s" % "ab"[e], ["V%s%d" % ("AB"[e], i) for i in range(r.randint(1, 5))]))
+    allvals = [(en, v) for en, vs in enums for v in vs]
+    hidden = {x: r.random() for x in allvals}
+    for en, vs in enums:
+        text.append("enum %s:" % en)
+        for v in vs:
+            cands = [x for x in allvals if hidden[x] < hidden[(en, v)] or r.random() < back]
+            ds = r.sample(cands, min(len(cands), r.choice([0, 0, 1, 1, 2])))
+            intended[(f, en, v)] = {(f,) + d for d in ds}
+            expr = " + ".join([d[1] if d[0] == en and r.random() < 0.7 else "%s.%s" % d for d in ds] +
+                              [str(r.randint(0, 9))])
+            text.append("  %s = %s" % (v, expr))
+            stats["node:enum-value"] += 1
+    # --- a parameterised helper struct
+    text += ["struct Bar(bp: UInt:8):", "  0 [+1] UInt bx"]
+    intended[(f, "Bar", "bp")] = set()
+    intended[(f, "Bar", "bx")] = set()
+    # --- structs
+    for sname in ["Foo", "Goo"][:r.choice([1, 1, 2])]:
+        params = ["p%d" % i for i in range(r.choice([0, 0, 1, 2]))]
+        names = ["f%d" % i for i in range(r.randint(1, 9 if len(enums) else 12))]
+        kinds = {nm: r.choice(["let", "let", "let", "cond", "dyn", "dynsize", "typed", "plain"]) for nm in names}
+        hid = {x: r.random() for x in names}
+        text.append("struct %s%s:" % (sname, "(" + ", ".join("%s: UInt:8" % p for p in params) + ")" if params else ""))
+        if r.random() < 0.3 and len(names) > 1:
+            a, b = r.sample(names, 2)
+            text.append("  [requires: %s == %s]" % (ref(a, kinds), ref(b, kinds)))   # attribute: no edge
+            stats["attr-reference"] += 1
+        off = 0
+        for p in params:
+            intended[(f, sname, p)] = set()
+            stats["node:parameter"] += 1
+        for nm in names:
+            k = kinds[nm]
+            cands = [x for x in names if (hid[x] < hid[nm] or r.random() < back)
+                     and not (shape == "acyclic" and kinds[x] == "dynsize")]   # arrays have no integer value
+            fds = r.sample(cands, min(len(cands), r.choice([0, 1, 1, 2, 3]))) if k != "plain" else []
+            pds = [p for p in params if r.random() < 0.3] if k != "plain" else []
+            eds = [x for x in allvals if r.random() < 0.1] if k in ("let", "cond") else []
+            if k in ("dyn", "dynsize", "typed") and not (fds or pds):
+                k = kinds[nm] = "plain"
+            intended[(f, sname, nm)] = {(f, sname, d) for d in fds + pds} | {(f,) + d for d in eds}
+            terms = [ref(d, kinds) for d in fds] + pds + \
+                ["(%s.%s == %s.%s ? 1 : 0)" % (d + d) for d in eds]
+            expr = " + ".join(terms) if terms else "0"
+            stats["node:" + k] += 1
+            if k == "let":
+                text.append("  let %s = %s + 1" % (nm, expr))
+            elif k == "cond":
+                text += ["  if %s == 0:" % expr, "    %d [+1] UInt %s" % (off, nm)]
+            elif k == "dyn":
+                text.append("  %s [+1] UInt %s" % (expr, nm))
+            elif k == "dynsize":
+                text.append("  %d [+%s] UInt:8[] %s" % (off, expr, nm))
+            elif k == "typed":
+                # FieldReferences inside an AtomicType (type-parameter argument) do count
+                text.append("  %d [+1] Bar(%s) %s" % (off, expr, nm))
+            else:
+                text.append("  %d [+1] UInt %s" % (off, nm))
+            if k not in ("let", "typed", "dynsize") and r.random() < 0.15 and fds:
+                text.append("%s[requires: this == 0]" % ("      " if k == "cond" else "    "))
+            off += 1
+    return {"m.emb": "\n".join(text) + "\n"}, "m.emb", intended
+
+
+def ref(nm, kinds):
+    """An integer-valued expression mentioning field `nm` (head of the FieldReference)."""
+    k = kinds.get(nm)
+    if k == "typed":
+        return nm + ".bx"
+    return nm
+
+
+def gen_imports(r, stats):
+    """Multi-file module set with a random import graph; enum values reference values of
+    imported modules.  Intended import graph over file names."""
+    n = r.randint(1, 6)
+    files = ["%s.emb" % "abcdef"[i] for i in range(n)]
+    shape = r.choice(["dag", "dag", "two-cycle", "long-cycle", "self", "random", "multi"])
+    stats["import-shape:" + shape] += 1
+    imp = {x: [] for x in files}
+    for i, x in enumerate(files):
+        for y in files[i + 1:]:
+            if r.random() < 0.4:
+                imp[x].append(y)
+    if shape == "two-cycle" and n >= 2:
+        a, b = r.sample(files, 2)
+        imp[a].append(b)
+        imp[b].append(a)
+    elif shape == "long-cycle" and n >= 2:
+        cyc = r.sample(files, r.randint(2, n))
+        for i, a in enumerate(cyc):
+            imp[a].append(cyc[(i + 1) % len(cyc)])
+    elif shape == "self":
+        a = r.choice(files)
+        imp[a].append(a)
+    elif shape == "random":
+        for x in files:
+            imp[x] += [y for y in files if r.random() < 0.25]
+    elif shape == "multi" and n >= 4:
+        pool = r.sample(files, 4)
+        for a, b in [(pool[0], pool[1]), (pool[1], pool[0]), (pool[2], pool[3]), (pool[3], pool[2])]:
+            imp[a].append(b)
+    # make everything reachable from a.emb so that all files are loaded
+    while True:
+        seen_f, todo = set(), ["a.emb"]
+        while todo:
+            y = todo.pop()
+            if y not in seen_f:
+                seen_f.add(y)
+                todo += imp[y]
+        missing = [x for x in files if x not in seen_f]
+        if not missing:
+            break
+        imp["a.emb"].append(missing[0])
+    out = {}
+    intended = {}
+    for x in files:
+        lines = []
+        seen = []
+        for j, y in enumerate(imp[x]):
+            lines.append('import "%s" as i%d' % (y, j))    # the same file twice: two names
+            seen.append((j, y))
+        lines.append("enum E%s:" % x[0])
+        deps = [(j, y) for j, y in seen if r.random() < 0.5]
+        lines.append("  V%s = %s" % (x[0].upper(), " + ".join(
+            ["i%d.E%s.V%s" % (j, y[0], y[0].upper()) for j, y in deps] + ["1"])))
+        intended[(x, "E%s" % x[0], "V%s" % x[0].upper())] = {(y, "E%s" % y[0], "V%s" % y[0].upper()) for _, y in deps}
+        out[x] = "\n".join(lines) + "\n"
+    return out, "a.emb", intended, {x: set(v) for x, v in imp.items()}
+
+
+def walk_definitions(d):
+    """Independent walker over the JSON form of the IR.  Returns
+    (defs, info, mods): defs = [(name tuple, [occurrence])] in document order,
+    occurrence = (target tuple or keyword index, 'F'|'R', in_attr, in_atomic);
+    info[name] = (file, location string, short name); mods = [(file name, [imports], location)]."""
+    defs, info, mods = [], {}, []
+
+    def cname(x):
+        c = x["canonical_name"]
+        return (c.get("module_file", ""),) + tuple(c["object_path"])
+
+    def occ(x, kind, a, t, cur):
+        if "canonical_name" not in x:
+            return
+        path = x["canonical_name"]["object_path"]
+        tgt = KEYWORDS.index(path[0]) if path[0] in KEYWORDS else cname(x)
+        if cur is not None:
+            cur.append((tgt, kind, a, t))
+        elif not a and (kind == "F" or not t):
+            # the real traversal would call the action without a `name` parameter
+            raise common.InfraError("counted reference outside any definition: %r" % (x,))
+
+    def walk(x, key, a, t, cur):
+        if isinstance(x, list):
+            for v in x:
+                walk(v, key, a, t, cur)
+            return
+        if not isinstance(x, dict):
+            return
+        if key in ("field", "value", "runtime_parameter") and isinstance(x.get("name"), dict) \
+                and "canonical_name" in x["name"]:
+            nm = cname(x["name"])
+            cur = []
+            defs.append((nm, cur))
+            info[nm] = (nm[0], x.get("source_location") or "0:0-0:0", x["name"]["name"]["text"])
+        for k, v in x.items():
+            if k == "field_reference":
+                occ(v["path"][0], "F", a, t, cur)          # only the head; the rest is unresolved here
+            elif isinstance(v, dict) and "canonical_name" in v and k != "name":
+                occ(v, "R", a, t or k == "reference" and key == "atomic_type", cur)
+            else:
+                walk(v, k, a or k == "attribute", t or k == "atomic_type", cur)
+
+    for m in d["module"]:
+        fname = m.get("source_file_name", "")
+        mods.append((fname, [fi["file_name"].get("text", "") for fi in m.get("foreign_import", [])],
+                     m.get("source_location") or "0:0-0:0"))
+        walk(m.get("type", []), "type", False, False, None)
+    return defs, info, mods
+
+
+def summarize(groups):
+    return [[(m.source_file, str(m.location), str(m.severity), m.message) for m in g] for g in groups]
+
+
+def parse_groups(ans):
+    body = ans[len("cycles "):]
+    return [[int(x) for x in g.split(",")] for g in body.split(";")] if body else []
+
+
+def module_case(chk, files, main, intended, intended_imports, tag, batch, stats):
+    """Runs the real code on one module set; queues the model ops.  batch: list of
+    (lines, continuation) — continuation(answers) finishes the comparison."""
+    chk.count()
+    rec = {"kind": "emb", "files": files, "main": main}
+    ir, errors, exc = emb.compile_text(files, main=main, stop_before_step="find_dependency_cycles")
+    if exc is not None:
+        chk.violation("input", dict(rec, observed="exception %r before the dependency check" % exc,
+                                    expected="IR or located errors"),
+                      key="crash:%s" % type(exc).__name__)
+        return
+    if errors:
+        stats["rejected-before-check"] += 1      # generator artefact; nothing to compare
+        stats["rejected:" + summarize(errors)[0][0][3].split("\n")[0][:40]] += 1
+        return
+    d = emb.ir_to_dict(ir)
+    defs, info, mods = walk_definitions(d)
+    try:
+        real_deps, real_kw = dependency_checker._find_dependencies(ir)
+        real_groups = summarize(dependency_checker.find_dependency_cycles(ir))
+    except Exception as e:  # noqa: BLE001
+        tb = traceback.extract_tb(e.__traceback__)[-1]
+        chk.violation("input", dict(rec, observed="exception %r in %s" % (e, tb.name),
+                                    expected="error groups"),
+                      key="crash:%s:%s:%s" % (tb.filename.split("/")[-1], tb.name, type(e).__name__))
+        return
+    # --- oracle on the real outputs (no model involved)
+    problems = []
+    kw_expected = [(nm, KEYWORDS[o[0]]) for nm, occs in defs for o in occs
+                   if isinstance(o[0], int) and o[1] == "R" and not o[2] and not o[3]]
+    for nm, ds in intended.items():
+        got = {x for x in real_deps.get(nm, set()) if x in intended}
+        if nm not in real_deps:
+            problems.append("definition %r has no entry in the dependency graph" % (nm,))
+        elif got != ds and not kw_expected:
+            problems.append("edges of %r: real %r, written %r" % (nm, sorted(got), sorted(ds)))
+    imp_graph = {(fn,): {(i,) for i in imps if i or fn} for fn, imps, _ in mods}
+    if intended_imports is not None:
+        for fn, imps in intended_imports.items():
+            if {x[0] for x in imp_graph.get((fn,), set()) if x[0]} != imps:
+                problems.append("imports of %r: IR %r, written %r" % (fn, imp_graph.get((fn,)), imps))
+    want_mod = canon(closure_sccs(imp_graph))
+    closed = all(b in real_deps for v in real_deps.values() for b in v)
+    want_obj = canon(closure_sccs(real_deps)) if closed else None
+    got_mod = [g for g in real_groups if g[0][3].startswith("Import dependency cycle")]
+    got_obj = [g for g in real_groups if g[0][3].startswith("Dependency cycle")]
+    got_kw = [g for g in real_groups if g[0][3].startswith("Keyword")]
+
+    def expected_groups(comps, what, table):
+        out = []
+        for c in comps:
+            g = []
+            for i, nm in enumerate(c):
+                fl, loc, short = table[nm]
+                g.append((fl, loc, "error" if i == 0 else "note", (what + "\n" + short) if i == 0 else short))
+            out.append(g)
+        return out
+    modtable = {(fn,): (fn, loc, fn) for fn, _, loc in mods}
+    if got_mod != expected_groups(want_mod, "Import dependency cycle", modtable):
+        problems.append("import cycle groups: real %r, oracle components %r" % (got_mod, want_mod))
+    if kw_expected:
+        exp_kw = [[(nm[0], None, "error", "Keyword `%s` may not be used in this context." % kw)]
+                  for nm, kw in kw_expected]
+        if [[(m[0], None, m[2], m[3]) for m in g] for g in got_kw] != exp_kw or got_obj:
+            problems.append("keyword errors: real %r, expected %r and no cycle groups" % (got_kw + got_obj, exp_kw))
+    elif want_obj is None:
+        problems.append("dependency on something that is not a field/enum value/parameter")
+    elif got_obj != expected_groups(want_obj, "Dependency cycle", info) or got_kw:
+        problems.append("cycle groups: real %r, oracle components %r" % (got_obj + got_kw, want_obj))
+    if problems:
+        chk.violation("input", dict(rec, observed=real_groups, expected=problems))
+        return
+    # --- the full pipeline reports the same thing
+    ir2, errors2, exc2 = emb.compile_text(files, main=main)
+    if exc2 is not None:
+        tb = traceback.extract_tb(exc2.__traceback__)[-1]
+        key = "crash:%s:%s:%s" % (tb.filename.split("/")[-1], tb.name, type(exc2).__name__)
+        if real_groups or isinstance(exc2, RecursionError):
+            # a later pass ran although a cycle was found, or recursed without bound
+            chk.violation("input", dict(rec, observed="exception %r" % exc2, expected="IR or located errors"), key=key)
         else:
-            # mostly-acyclic: pick a random hidden order
-            cands = [x for x in names if hash_order(x, r_salt[0]) < hash_order(nm, r_salt[0])] + params
-        k = r.choice([0, 0, 1, 1, 2, 3])
-        ds = set(r.sample(cands, min(k, len(cands)))) if cands else set()
-        kind = r.choice(["let", "let", "cond", "dyn", "plain"])
-        if kind == "plain":
-            ds = set()
-        if kind != "let":
-            ds.discard(nm) if r.random() < 0.7 else None
-        deps[nm] = ds
-        expr = " + ".join(sorted(ds)) if ds else "0"
-        if kind == "let":
-            lines.append("  let %s = %s + 1" % (nm, expr))
-        elif kind == "cond":
-            lines.append("  if %s == 0:" % expr)
-            lines.append("    %d [+1] UInt %s" % (phys_offset, nm))
-            phys_offset += 1
-        elif kind == "dyn":
-            lines.append("  %s [+1] UInt %s" % (expr, nm))
+            # the dependency check was correct (oracle: no cycle) and a later pass crashed:
+            # not this property (C16: the compiler is total); recorded, reported in the notes
+            stats["crash-in-later-pass:" + key] += 1
+            chk.extra.setdefault("crashes_outside_property", [])
+            if len(chk.extra["crashes_outside_property"]) < 3:
+                chk.extra["crashes_outside_property"].append({"key": key, "files": files, "exception": repr(exc2)})
+        return
+    full = summarize(errors2)
+    # glue.process_ir defers error groups that mention a synthetic location (suffix `*`)
+    user_groups = [g for g in real_groups if not any(m[1].endswith("*") for m in g)]
+    if real_groups and not user_groups:
+        stats["only-synthetic-groups"] += 1
+    elif real_groups:
+        if full != user_groups:
+            chk.violation("input", dict(rec, observed=full, expected=user_groups,
+                                        note="full pipeline vs find_dependency_cycles on the same IR"))
+            return
+    elif any(m[3].startswith(("Dependency cycle", "Import dependency cycle", "Keyword")) for g in full for m in g):
+        chk.violation("input", dict(rec, observed=full, expected="no dependency error"))
+        return
+    stats["%s:%s" % (tag, "import-cycle" if got_mod else "no-import-cycle")] += 1
+    stats["%s:%s" % (tag, "keyword-error" if got_kw else "cyclic" if got_obj else "acyclic")] += 1
+    stats["cycle-groups:%d" % len(got_obj)] += 1
+    if real_groups:
+        chk.nontrivial("emb:" + json.dumps(files, sort_keys=True))
+    if ir2 is not None and not errors2:
+        stats["accepted"] += 1
+        order_cases(chk, files, emb.ir_to_dict(ir2), batch, stats)
+    # --- model
+    names = set(info) | {o[0] for _, occs in defs for o in occs if not isinstance(o[0], int)} | \
+        {x for v in real_deps.values() for x in v}
+    num = number(names)
+    back = {v: k for k, v in num.items()}
+
+    def occ_text(o):
+        return "%s/%s%s%s" % ("K%d" % o[0] if isinstance(o[0], int) else num[o[0]], o[1],
+                              "A" if o[2] else "-", "T" if o[3] else "-")
+    arg = "|".join("%d:%s" % (num[nm], ",".join(occ_text(o) for o in occs)) for nm, occs in defs)
+    mnum = number({(fn,) for fn, _, _ in mods} | {(i,) for _, imps, _ in mods for i in imps})
+    if ("",) not in mnum or mnum[("",)] != 0:
+        raise common.InfraError("prelude module is not first in sorted order: %r" % (mnum,))
+    mback = {v: k for k, v in mnum.items()}
+    marg = "|".join("%d:%s" % (mnum[(fn,)], ",".join(str(mnum[(i,)]) for i in imps)) for fn, imps, _ in mods)
+    lines = ["DEPGRAPH " + arg, "DEPCYC " + arg, "IMPORTS " + marg]
+    want_graph = "graph " + "|".join(
+        "%d:%s" % (num[k], ",".join(str(x) for x in sorted(num[b] for b in real_deps[k]))) for k in real_deps) + \
+        " errors " + ";".join("%d:%d" % (num[nm], KEYWORDS.index(kw)) for nm, kw in kw_expected)
+
+    def finish(ans):
+        bad = []
+        if ans[0] != want_graph:
+            bad.append(("DEPGRAPH", ans[0], want_graph))
+        # the model's groups → error groups, order as the model gives it (nothing canonicalised)
+        if ans[2].startswith("cycles "):
+            exp = expected_groups([[mback[i] for i in g] for g in parse_groups(ans[2])],
+                                  "Import dependency cycle", modtable)
         else:
-            lines.append("  %d [+1] UInt %s" % (phys_offset, nm))
-            phys_offset += 1
-    head = "struct Foo%s:" % ("(" + ", ".join("%s: UInt:8" % p for p in params) + ")" if params else "")
-    return head + "\n" + "\n".join(lines) + "\n", deps, names, params
+            exp = [ans[2]]
+        if ans[1].startswith("keyword-errors "):
+            kws = [x.split(":") for x in ans[1][len("keyword-errors "):].split(";")]
+            mk = [[(back[int(n)][0], "error", "Keyword `%s` may not be used in this context." % KEYWORDS[int(k)])]
+                  for n, k in kws]
+            if mk != [[(m[0], m[2], m[3]) for m in g] for g in got_kw] or got_obj:
+                bad.append(("DEPCYC", ans[1], got_kw + got_obj))
+            exp += got_kw
+        elif ans[1].startswith("cycles "):
+            exp += expected_groups([[back[i] for i in g] for g in parse_groups(ans[1])], "Dependency cycle", info)
+        else:
+            exp.append(ans[1])
+        if exp != real_groups:
+            bad.append(("DEPCYC/IMPORTS", [ans[1], ans[2]], real_groups))
+        stats["traces"] += 3
+        for op, model, observed in bad:
+            stats["disagreements"] += 1
+            chk.violation("correspondence", dict(rec, op=op, model=model, observed=observed,
+                          expected="real code agrees with the oracle; the model differs",
+                          theorem_or_correspondence="model_c15 %s vs dependency_checker" % op),
+                          found_input=False)
+    batch.append((lines, finish))
+    chk.sample({"files": files, "error_groups": real_groups}, limit=6 if real_groups else 3)
 
 
-r_salt = [0]
-
-
-def hash_order(x, salt):
-    import hashlib
-    return hashlib.sha256(("%s/%d" % (x, salt)).encode()).hexdigest()
-
-
-def has_cycle(deps, names):
-    """Independent oracle: some field reaches itself."""
-    adj = {n: [d for d in deps[n] if d in deps] for n in names}
-    color = {}
-
-    def dfs(u):
-        color[u] = 1
-        for v in adj[u]:
-            if color.get(v) == 1:
-                return True
-            if v not in color and dfs(v):
-                return True
-        color[u] = 2
-        return False
-    return any(n not in color and dfs(n) for n in names)
-
-
+# ------------------------------------------------------------------ D: ordering
 def field_deps_from_ir(struct_dict):
     """Independent walker over the JSON IR: head of every field reference under the
     field, attributes excluded (what the reference calls 'mentions')."""
@@ -119,116 +639,350 @@ def spec_order_ok(order, names_n, deps_n, params_n):
         seen.add(f)
     if sorted_already and order != names_n:
         return "source order was already valid but was changed"
+    # stable: lexicographically least topological order w.r.t. source positions
+    seen = set(params_n)
+    rest = list(names_n)
+    least = []
+    while rest:
+        nxt = next((f for f in rest if all(d in seen for d in deps_n[f])), None)
+        if nxt is None:
+            break
+        least.append(nxt)
+        seen.add(nxt)
+        rest.remove(nxt)
+    if order != least:
+        return "not the least topological order %r" % least
     return None
 
 
-def one_case(chk, r, model_lines, cases, n_fields, n_params, cyclic_bias):
-    text, deps, names, params = gen_struct(r, n_fields, n_params, cyclic_bias)
-    ir, errors, exc = emb.compile_text({"m.emb": text})
-    chk.count()
-    if exc is not None:
-        chk.violation("input", {"input": text, "observed": "exception %r" % exc,
-                                "expected": "IR or located errors"},
-                      key="crash:%s" % type(exc).__name__)
-        return
-    cyc = has_cycle(deps, names)
-    msgs = [m[3] for g in emb.error_summary(errors) for m in g]
-    got_cycle = any(m.startswith("Dependency cycle") for m in msgs)
-    if cyc != got_cycle:
-        chk.violation("input", {"input": text, "expected": "cycle error" if cyc else "no cycle error",
-                                "observed": msgs, "intended_deps": {k: sorted(v) for k, v in deps.items()}})
-        return
-    if cyc:
-        chk.nontrivial("cyc:" + text)
-        return
-    if errors:
-        # acyclic by construction yet rejected for another reason (generator artefact):
-        # count, do not compare orders
-        chk.extra["rejected_other"] = chk.extra.get("rejected_other", 0) + 1
-        return
-    d = emb.ir_to_dict(ir)
-    s = d["module"][0]["type"][0]["structure"]
-    fdeps = field_deps_from_ir(s)
-    ids = {}
-    for nm, _ in fdeps:
-        ids[nm] = len(ids)
-    pid = {}
-    for p in d["module"][0]["type"][0].get("runtime_parameter", []):
-        pid[tuple(p["name"]["canonical_name"]["object_path"])] = 1000 + len(pid)
-    allid = dict(ids)
-    allid.update(pid)
-    deps_n = {}
-    for nm, acc in fdeps:
-        deps_n[ids[nm]] = sorted(allid.get(x, 9999) for x in acc)
-    names_n = [ids[nm] for nm, _ in fdeps]
-    params_n = sorted(pid.values())
-    real = [int(x) for x in s.get("fields_in_dependency_order", [])]
-    line = "ORDER %s;%s;%s" % (
-        ",".join(map(str, params_n)), ",".join(map(str, names_n)),
-        "|".join("%d:%s" % (f, ",".join(map(str, deps_n[f]))) for f in names_n))
-    model_lines.append(line)
-    cases.append((text, real, names_n, deps_n, params_n))
-    if real != names_n:
-        chk.nontrivial("reordered:" + line)
-    chk.sample({"emb": text, "real_order": real}, limit=3)
+def order_cases(chk, files, d, batch, stats):
+    """Every structure of the main module of an accepted IR: oracle + model `ORDER`."""
+    for t in all_types(d["module"][0].get("type", [])):
+        if "structure" not in t:
+            continue
+        s = t["structure"]
+        fdeps = field_deps_from_ir(s)
+        ids = {nm: i for i, (nm, _) in enumerate(fdeps)}
+        pid = {tuple(p["name"]["canonical_name"]["object_path"]): 1000 + i
+               for i, p in enumerate(t.get("runtime_parameter", []))}
+        allid = dict(ids)
+        allid.update(pid)
+        deps_n = {ids[nm]: sorted(allid.get(x, 9999) for x in acc) for nm, acc in fdeps}
+        names_n = [ids[nm] for nm, _ in fdeps]
+        params_n = sorted(pid.values())
+        real = [int(x) for x in s.get("fields_in_dependency_order", [])]
+        rec = {"kind": "emb", "files": files, "main": "m.emb",
+               "structure": t["name"]["name"]["text"]}
+        why = spec_order_ok(real, names_n, deps_n, params_n)
+        stats["structures-ordered"] += 1
+        if why:
+            chk.violation("input", dict(rec, observed=real, expected=why))
+            continue
+        if real != names_n:
+            stats["structures-reordered"] += 1
+            chk.nontrivial("reordered:%r/%r" % (real, sorted(deps_n.items())))
+        line = "ORDER %s;%s;%s" % (
+            ",".join(map(str, params_n)), ",".join(map(str, names_n)),
+            "|".join("%d:%s" % (f, ",".join(map(str, deps_n[f]))) for f in names_n))
+
+        def finish(ans, real=real, rec=rec, line=line):
+            stats["traces"] += 1
+            if ans[0] != "order " + ",".join(map(str, real)):
+                stats["disagreements"] += 1
+                chk.violation("correspondence", dict(rec, op=line, model=ans[0], observed=real,
+                              expected="real order satisfies the ordering oracle; the model differs",
+                              theorem_or_correspondence="model_c15 ORDER vs fields_in_dependency_order"),
+                              found_input=False)
+        batch.append(([line], finish))
 
 
+def all_types(ts):
+    for t in ts:
+        yield t
+        for u in all_types(t.get("subtype", [])):
+            yield u
+
+
+def gen_struct(r, n_fields, n_params, cyclic_bias):
+    """Single structure, type-correct, mostly acyclic (the original ordering generator)."""
+    params = ["p%d" % i for i in range(n_params)]
+    names = ["f%d" % i for i in range(n_fields)]
+    hid = {x: r.random() for x in names}
+    lines = []
+    intended = {}
+    off = 0
+    for nm in names:
+        cands = names if r.random() < cyclic_bias else [x for x in names if hid[x] < hid[nm]]
+        cands = cands + params
+        ds = set(r.sample(cands, min(r.choice([0, 0, 1, 1, 2, 3]), len(cands)))) if cands else set()
+        kind = r.choice(["let", "let", "cond", "dyn", "plain"])
+        if kind == "plain":
+            ds = set()
+        if kind != "let" and r.random() < 0.7:
+            ds.discard(nm)
+        intended[("m.emb", "Foo", nm)] = {("m.emb", "Foo", x) for x in ds}
+        expr = " + ".join(sorted(ds)) if ds else "0"
+        if kind == "let":
+            lines.append("  let %s = %s + 1" % (nm, expr))
+        elif kind == "cond":
+            lines += ["  if %s == 0:" % expr, "    %d [+1] UInt %s" % (off, nm)]
+            off += 1
+        elif kind == "dyn":
+            lines.append("  %s [+1] UInt %s" % (expr, nm))
+        else:
+            lines.append("  %d [+1] UInt %s" % (off, nm))
+            off += 1
+    for p in params:
+        intended[("m.emb", "Foo", p)] = set()
+    head = "struct Foo%s:" % ("(" + ", ".join("%s: UInt:8" % p for p in params) + ")" if params else "")
+    return {"m.emb": head + "\n" + "\n".join(lines) + "\n"}, "m.emb", intended
+
+
+PINNED = [
+    # F7 (fixed by 128ce6f): ≥3 disjoint cycles — the group order must be the sorted one
+    ("f7", {"m.emb": "struct Foo:\n  let a = b\n  let b = a\n  let c = d\n  let d = c\n  let e = f\n  let f = e\n"}),
+    ("f7-enums", {"m.emb": "enum Zz:\n  ZA = ZB\n  ZB = ZA\nenum Aa:\n  AB = AA\n  AA = AB\nstruct Foo:\n"
+                  "  let q = q\n  let y = x\n  let x = y\n  0 [+1] UInt k\n"}),
+    ("nested-scc", {"m.emb": "struct Foo:\n  let a = d + c\n  let c = f + g\n  let f = c\n  let g = e\n"
+                    "  let e = b\n  let b = c\n  let d = f\n  let h = a\n"}),
+    ("self", {"m.emb": "struct Foo:\n  let x = x + 1\n"}),
+    ("self-location", {"m.emb": "struct Foo:\n  x [+1] UInt x\n"}),
+    ("size-in-bytes", {"m.emb": "struct Foo:\n  0 [+1] UInt a\n  a + $size_in_bytes [+1] UInt c\n"}),
+    ("param-arg", {"m.emb": "struct Bar(p: UInt:8):\n  0 [+1] UInt x\nstruct Foo:\n  0 [+1] UInt a\n"
+                   "  1 [+1] Bar(b) y\n  y.x [+1] UInt b\n"}),
+    ("param-arg-self", {"m.emb": "struct Bar(p: UInt:8):\n  0 [+1] UInt x\nstruct Foo:\n  1 [+1] Bar(y.x) y\n"}),
+    ("attr-no-edge", {"m.emb": "struct Foo:\n  [requires: a == b]\n  0 [+1] UInt a\n  let b = a\n"}),
+    ("enum-self", {"m.emb": "enum Ee:\n  AA = AA\n"}),
+    ("enum-two", {"m.emb": "enum Ee:\n  AA = BB + 1\n  BB = Ff.CC\nenum Ff:\n  CC = Ee.AA\n  DD = 4\n"}),
+    ("kw-static", {"m.emb": "struct Foo:\n  0 [+1] UInt x\n  let y = $is_statically_sized\n  let z = $static_size_in_bits\n"}),
+    ("kw-next", {"m.emb": "struct Foo:\n  0 [+1] UInt x\n  let y = $next\n  let a = b\n  let b = a\n"}),
+    ("kw-next-cond", {"m.emb": "struct Foo:\n  0 [+1] UInt x\n  if $next == 1:\n    1 [+1] UInt y\n"}),
+    ("kw-next-array", {"m.emb": "struct Foo:\n  0 [+1] UInt x\n  1 [+1] UInt:8[$next] y\n"}),
+    ("kw-enum", {"m.emb": "enum Ee:\n  AA = $next\n  BB = $is_statically_sized\n"}),
+    ("kw-two-structs", {"m.emb": "struct Foo:\n  0 [+1] UInt x\n  let y = $next\nstruct Goo(p: UInt:8):\n"
+                        "  0 [+1] UInt x\n  let y = $static_size_in_bits + p\n"}),
+    ("kw-attr-ok", {"m.emb": "struct Foo:\n  0 [+1] UInt x\n    [requires: $is_statically_sized]\n"}),
+    ("import-two", {"a.emb": 'import "b.emb" as b\nstruct Foo:\n  0 [+1] UInt x\n',
+                    "b.emb": 'import "a.emb" as a\nstruct Goo:\n  0 [+1] UInt x\n'}),
+    ("import-self", {"a.emb": 'import "a.emb" as me\nstruct Foo:\n  0 [+1] UInt x\n'}),
+    ("import-three-groups", {
+        "a.emb": 'import "b.emb" as b\nimport "c.emb" as c\nimport "e.emb" as e\n',
+        "b.emb": 'import "a.emb" as a\n', "c.emb": 'import "d.emb" as d\n', "d.emb": 'import "c.emb" as c\n',
+        "e.emb": 'import "e.emb" as e\n'}),
+    ("import-and-object", {
+        "a.emb": 'import "b.emb" as b\nenum Ea:\n  AA = b.Eb.BB\n',
+        "b.emb": 'import "a.emb" as a\nenum Eb:\n  BB = a.Ea.AA\n'}),
+]
+
+# Known crash outside the dependency checker (reported to the integrator, property C16):
+# `$next` below an attribute or a type-parameter argument is skipped here and later fails
+# an assertion in type_check._type_check_builtin_reference.
+
+
+def testdata_modules():
+    """The repository's own .emb files (and corpus/C15/*.emb), keyed as they import each other."""
+    import glob
+    import os
+    files = {}
+    for p in sorted(glob.glob(os.path.join(common.REPO, "testdata", "**", "*.emb"), recursive=True)):
+        with open(p) as f:
+            files[os.path.relpath(p, common.REPO)] = f.read()
+    mains = sorted(files)
+    corpus = {}
+    for p in sorted(glob.glob(os.path.join(common.VERIF, "corpus", PROP, "*.emb"))):
+        with open(p) as f:
+            corpus[os.path.basename(p)] = f.read()
+    return files, mains, corpus
+
+
+def real_modules(chk, tier, model_ok, stats):
+    r = common.rng("C15-emb")
+    batch = []
+    files, mains, corpus = testdata_modules()
+    for main in mains:
+        # only the files this one (transitively) imports are handed over
+        module_case(chk, files, main, {}, None, "testdata", batch, stats)
+    for name, text in corpus.items():
+        module_case(chk, {"m.emb": text}, "m.emb", {}, None, "corpus", batch, stats)
+    for tag, files in PINNED:
+        main = "a.emb" if "a.emb" in files else "m.emb"
+        module_case(chk, files, main, {}, None, "pinned", batch, stats)
+    n = 220 if tier == "quick" else 2500
+    for i in range(n):
+        files, main, intended = gen_module(r, stats)
+        module_case(chk, files, main, intended, None, "mixed", batch, stats)
+    for i in range(160 if tier == "quick" else 2000):
+        files, main, intended = gen_struct(r, r.randint(1, 12), r.randint(0, 2),
+                                           r.choice([0, 0, 0, 0.05, 0.2, 0.5]))
+        module_case(chk, files, main, intended, None, "struct", batch, stats)
+    for i in range(120 if tier == "quick" else 1200):
+        files, main, intended, imps = gen_imports(r, stats)
+        module_case(chk, files, main, intended, imps, "imports", batch, stats)
+    if model_ok:
+        lines = [l for ls, _ in batch for l in ls]
+        answers = common.Model("model_c15").ask(lines)
+        i = 0
+        for ls, finish in batch:
+            finish(answers[i:i + len(ls)])
+            i += len(ls)
+
+
+# ------------------------------------------------------------------ E: depth
+def let_chain(n):
+    lines = ["struct Foo:", "  0 [+1] UInt x"]
+    for i in range(n):
+        lines.append("  let f%d = f%d + 1" % (i, i + 1))
+    lines.append("  let f%d = x" % n)
+    return "\n".join(lines) + "\n"
+
+
+def chain_probe(n):
+    """find_dependency_cycles on a `let` chain f0 → f1 → … → fn → x.  Returns
+    ('ok', number of error groups) or ('RecursionError', function name)."""
+    ir, errors, exc = emb.compile_text({"m.emb": let_chain(n)}, stop_before_step="find_dependency_cycles")
+    if exc is not None or errors:
+        return ("before-check", repr(exc or summarize(errors)[:1]))
+    try:
+        return ("ok", len(dependency_checker.find_dependency_cycles(ir)))
+    except RecursionError as e:
+        tb = traceback.extract_tb(e.__traceback__)
+        return ("RecursionError", collections.Counter(f.name for f in tb).most_common(1)[0][0])
+
+
+def depth(chk, tier, model_ok, stats):
+    # raw: smallest chain (number of edges) on which _find_cycles exceeds the recursion limit
+    lo, hi = 1, 4 * sys.getrecursionlimit()
+    while lo < hi:
+        mid = (lo + hi) // 2
+        g = {i: {i + 1} for i in range(mid)}
+        g[mid] = set()
+        if real_find_cycles(g)[1] == "recursion-error":
+            hi = mid
+        else:
+            lo = mid + 1
+    chk.extra["recursion_limit"] = sys.getrecursionlimit()
+    chk.extra["raw_chain_first_recursion_error_edges"] = lo
+    # through the front end
+    probes = {}
+    for n in ([100, 900] if tier == "quick" else [100, 500, 900, 950, 975]):
+        chk.count()
+        probes[n] = chain_probe(n)
+        if probes[n][0] != "ok" or probes[n][1] != 0:
+            chk.violation("input", {"kind": "let-chain", "n": n, "observed": probes[n],
+                                    "expected": "no cycle error, no exception (chain below the recursion limit)"},
+                          key=RECURSION_KEY if probes[n][0] == "RecursionError" else None)
+    chk.extra["let_chain_probes"] = {str(k): list(v) for k, v in probes.items()}
+    if model_ok:
+        n = 1500
+        line = graph_line("CYCLES", list(range(n + 1)), {i: ([i + 1] if i < n else []) for i in range(n + 1)})
+        cyc = graph_line("CYCLES", list(range(n + 1)), {i: [(i + 1) % (n + 1)] for i in range(n + 1)})
+        a = common.Model("model_c15").ask([line, cyc])
+        stats["traces"] += 2
+        if a[0] != "cycles " or a[1] != show_groups([list(range(n + 1))]):
+            stats["disagreements"] += 1
+            chk.violation("correspondence", {"kind": "raw-chain", "n": n, "model": [x[:80] for x in a],
+                                             "expected": "no out-of-fuel on a %d-chain / one %d-cycle" % (n, n + 1)},
+                          found_input=False)
+
+
+def known_findings(chk):
+    """Re-execute the pinned input of every open finding of this property."""
+    for k in chk.known:
+        if k.get("property") != PROP or k.get("status") != "open":
+            continue
+        inp = k.get("input")
+        if isinstance(inp, dict) and inp.get("kind") == "let-chain":
+            if chain_probe(inp["n"])[0] == "RecursionError":
+                chk.report_known(k)
+
+
+# ------------------------------------------------------------------ entry points
 def search(chk):
-    """Model-free search used when the Lean obligations are broken."""
-    r = common.rng("C15-search")
+    """Model-free search used when the Lean obligations are broken: real code against the
+    closure oracle / the ordering oracle only."""
     before = len(chk.violations)
-    for _ in range(400):
-        lines, cases = [], []
-        one_case(chk, r, lines, cases, r.randint(1, 9), r.randint(0, 2), r.choice([0, 0, 0.1, 0.3]))
-        for text, real, names_n, deps_n, params_n in cases:
-            why = spec_order_ok(real, names_n, deps_n, params_n)
-            if why:
-                chk.violation("input", {"input": text, "observed": real, "expected": why})
+    stats = collections.Counter()
+    r = common.rng("C15-search")
+    lines, pending = [], []
+    for i in range(6000):
+        raw_case(chk, r, FAMILIES[i % len(FAMILIES)], lines, pending, stats)
+    batch = []
+    for tag, files in PINNED:
+        module_case(chk, files, "a.emb" if "a.emb" in files else "m.emb", {}, None, "pinned", batch, stats)
+    for i in range(150):
+        files, main, intended = gen_module(r, stats)
+        module_case(chk, files, main, intended, None, "mixed", batch, stats)
+        files, main, intended, imps = gen_imports(r, stats)
+        module_case(chk, files, main, intended, imps, "imports", batch, stats)
     return len(chk.violations) - before
+
+
+MAX_REPLAYS = 40
+
+
+def cap_violations(chk):
+    """A broken dependency checker fails thousands of cases; keep the first MAX_REPLAYS
+    replay files and count the rest (exit code and VIOLATION lines are unaffected)."""
+    orig = chk.violation
+
+    def violation(kind, detail, key=None, found_input=True):
+        if len(chk.violations) >= MAX_REPLAYS and (key is None or chk.known_finding(key) is None):
+            chk.extra["violations_not_written"] = chk.extra.get("violations_not_written", 0) + 1
+            return None
+        return orig(kind, detail, key=key, found_input=found_input)
+    chk.violation = violation
 
 
 def run(tier):
     chk = common.Check(PROP, tier, exes=["model_c15"])
-    chk.cov["rule"] = ("random reference graphs over ≤12 fields + ≤2 parameters realised as "
-                       ".emb structures; non-trivial = cyclic, or real order differs from source order; "
-                       "distinct by text")
+    cap_violations(chk)
+    chk.cov["rule"] = ("random graphs over ≤14 nodes: raw dict-of-sets graphs for _find_cycles, and reference "
+                       "graphs realised as .emb modules (fields, enum values, parameters, imports); "
+                       "non-trivial = at least one cycle component / error group, or a structure whose real "
+                       "order differs from source order; distinct by graph (raw) or module text")
+    chk.trusted.append("IR walker in harness/corr/C15.py (JSON form of the IR → reference occurrences)")
     model_ok = common.proof_gate(chk, search)
-    r = common.rng("C15")
-    r_salt[0] = common.seed()
-    n = 300 if tier == "quick" else 6000
-    lines, cases = [], []
-    for i in range(n):
-        r_salt[0] = r.randint(0, 1 << 30)
-        one_case(chk, r, lines, cases, r.randint(1, 12), r.randint(0, 2), r.choice([0, 0, 0, 0.05, 0.2, 0.5]))
-    # spec oracle on the real output, always
-    for text, real, names_n, deps_n, params_n in cases:
-        why = spec_order_ok(real, names_n, deps_n, params_n)
-        if why:
-            chk.violation("input", {"input": text, "observed": real, "expected": why})
-    if model_ok:
-        answers = common.Model("model_c15").ask(lines)
-        disagreements = 0
-        for (text, real, names_n, deps_n, params_n), line, ans in zip(cases, lines, answers):
-            want = "order " + ",".join(map(str, real))
-            if ans != want:
-                disagreements += 1
-                why = spec_order_ok(real, names_n, deps_n, params_n)
-                chk.violation("correspondence" if not why else "input",
-                              {"input": text, "op": line, "model": ans, "observed": want,
-                               "expected": why or "real code satisfies the spec; the model differs",
-                               "theorem_or_correspondence": "model_c15 ORDER vs fields_in_dependency_order"},
-                              found_input=bool(why))
-        chk.extra["traces_validated_against_impl"] = len(lines)
-        chk.extra["disagreements"] = disagreements
+    stats = collections.Counter()
+    known_findings(chk)
+    raw_graphs(chk, tier, model_ok, stats)
+    real_modules(chk, tier, model_ok, stats)
+    depth(chk, tier, model_ok, stats)
+    chk.extra["traces_validated_against_impl"] = stats.pop("traces", 0)
+    chk.extra["disagreements"] = stats.pop("disagreements", 0)
+    chk.extra["distribution"] = dict(sorted(stats.items()))
+    chk.extra["group_order_compared"] = "exactly (order of groups and of members; nothing canonicalised)"
     return chk.finish()
 
 
 def replay(path):
     rec = json.load(open(path))
-    ir, errors, exc = emb.compile_text({"m.emb": rec["input"]})
-    print("exception:", repr(exc))
-    print("errors:", emb.error_summary(errors))
-    if ir is not None:
-        s = emb.ir_to_dict(ir)["module"][0]["type"][0]["structure"]
-        print("fields_in_dependency_order:", s.get("fields_in_dependency_order"))
+    kind = rec.get("kind")
+    if kind == "raw":
+        g = {unrepr_label(k): {unrepr_label(b) for b in v} for k, v in rec["graph"]}
+        real, err = real_find_cycles(g)
+        print("graph:", g)
+        print("real _find_cycles:", err or canon(real))
+        closed = all(b in g for v in g.values() for b in v)
+        print("oracle:", canon(closure_sccs(g)) if closed else "KeyError expected (dangling destination)")
+        return 0
+    if kind == "let-chain":
+        print("let chain of length", rec["n"], "→", chain_probe(rec["n"]))
+        return 0
+    files = rec.get("files") or {"m.emb": rec["input"]}
+    main = rec.get("main", "m.emb")
+    for stop in ("find_dependency_cycles", None):
+        ir, errors, exc = emb.compile_text(files, main=main, stop_before_step=stop)
+        print("stop_before_step=%s: exception: %r" % (stop, exc))
+        print("  errors:", summarize(errors))
+        if stop and ir is not None and not errors:
+            deps, kw = dependency_checker._find_dependencies(ir)
+            print("  _find_dependencies:", {k: sorted(v) for k, v in deps.items() if v})
+            print("  find_dependency_cycles:", summarize(dependency_checker.find_dependency_cycles(ir)))
+            closed = all(b in deps for v in deps.values() for b in v)
+            print("  oracle components:", canon(closure_sccs(deps)) if closed else "dangling")
+        if not stop and ir is not None:
+            for t in all_types(emb.ir_to_dict(ir)["module"][0].get("type", [])):
+                if "structure" in t:
+                    print("  fields_in_dependency_order %s: %s" % (
+                        t["name"]["name"]["text"], t["structure"].get("fields_in_dependency_order")))
     return 0
